@@ -39,7 +39,16 @@ def project(ans, codes="exact", enh=True, ehlo=False, lmtp=False, drecs="full", 
     if len(parts) < 3:
         return ans
     out, npanic = [], 0
-    for e in parts[0].split(";") if parts[0] else []:
+    evs = parts[0].split(";") if parts[0] else []
+    # a panic log line of the delivery goroutine is asynchronous: it may land between two writes of one multi-line
+    # reply; its position relative to them means nothing, so it is moved in front and the writes are rejoined
+    joined = []
+    for e in evs:
+        if e.startswith("W:") and len(joined) >= 2 and joined[-1] == "PANIC" and joined[-2].startswith("W:"):
+            joined[-2:] = ["PANIC", joined[-2] + e[2:]]
+        else:
+            joined.append(e)
+    for e in joined:
         kind = e.split(":", 1)[0]
         if kind == "W":
             if codes == "none":
